@@ -12,7 +12,7 @@
 (*           ones: from_bytes on the odd one, and what a connection's       *)
 (*           MessageStream delivered                                        *)
 (***************************************************************************)
-EXTENDS MsgLayout, Json, IOUtils, TLC
+EXTENDS Gen_MsgBase, Json, IOUtils, TLC      \* Gen_MsgBase (EXTENDS MsgLayout): the normal messages of the C13 streams
 
 Rec == ndJsonDeserialize(IOEnv.TRACE)
 (* The record of the line is kept in the state: TLC re-evaluates the definition `Rec` (i.e. parses
@@ -51,7 +51,7 @@ ApiArgsV(ts, vs) == IF Len(ts) = 1 /\ ts[1].k = "r" THEN vs[1].r ELSE vs
 \* default-valued body fields may be present or omitted
 Defaulted(f) == \/ (f.c = F_SIGNATURE /\ f.v.s = <<>>)
                 \/ (f.c = F_UNIX_FDS /\ f.v.b = <<0, 0, 0, 0>>)
-Essential(S) == {f \in S : ~Defaulted(f)}
+Essential(FS) == {f \in FS : ~Defaulted(f)}
 
 (* ------------------------------ C11 ------------------------------------ *)
 BuildChecks(r) ==
@@ -60,6 +60,7 @@ BuildChecks(r) ==
   LET want  == WithBodyFields(r.hdr, r.body)         \* user fields + SIGNATURE / UNIX_FDS
       wantS == FieldSet(want.fields)
       p     == ParseMsg(r.bytes)
+      bb    == BodyBytes(r.body, r.le)
   IN
   IF ~p.ok THEN Report("hdr-invalid", [why |-> p.why, sub |-> p.sub])
   ELSE
@@ -74,10 +75,10 @@ BuildChecks(r) ==
           \/ Report("hdr-bytes", [want |-> MsgBytes([r.hdr EXCEPT !.fields = p.fields], r.body, r.le), got |-> r.bytes]))
     \* body on an 8-byte boundary, exactly the marshalled arguments
     /\ (p.boff % 8 = 0 \/ Report("body-align", p.boff))
-    /\ (SubSeq(r.bytes, p.boff + 1, Len(r.bytes)) = BodyBytes(r.body, r.le)
-          \/ Report("body-bytes", [want |-> BodyBytes(r.body, r.le), got |-> SubSeq(r.bytes, p.boff + 1, Len(r.bytes))]))
+    /\ (SubSeq(r.bytes, p.boff + 1, Len(r.bytes)) = bb
+          \/ Report("body-bytes", [want |-> bb, got |-> SubSeq(r.bytes, p.boff + 1, Len(r.bytes))]))
     \* declared body length and descriptor count are the actual ones
-    /\ ((p.blen = Len(BodyBytes(r.body, r.le)) /\ Len(r.bytes) = p.boff + p.blen)
+    /\ ((p.blen = Len(bb) /\ Len(r.bytes) = p.boff + p.blen)
           \/ Report("body-len", [declared |-> p.blen, actual |-> Len(r.bytes) - p.boff]))
     /\ ((p.nfds = BodyFds(r.body) /\ r.nfds = p.nfds)
           \/ Report("unix-fds", [declared |-> p.nfds, attached |-> r.nfds, in_body |-> BodyFds(r.body)]))
@@ -124,12 +125,16 @@ HostileChecks(r) ==
 
 (* ------------------------------ C13 ------------------------------------ *)
 Devs == {"unknown_field_rejected", "unknown_flag_rejected", "unknown_type_rejected"}
+(* Memoization only: the two normal messages of the generated streams recur in every line; their
+   parse results are a constant-level definition, which TLC evaluates once. *)
+KnownParses == [m \in {NormA(TRUE), NormA(FALSE), NormB(TRUE), NormB(FALSE)} |-> ParseMsg(m)]
+ParseC(B) == IF B \in DOMAIN KnownParses THEN KnownParses[B] ELSE ParseMsg(B)
 RECURSIVE MsgPrefix(_)
 MsgPrefix(items) == IF items = <<>> \/ Head(items).k # "msg" THEN <<>> ELSE <<Head(items).serial>> \o MsgPrefix(Tail(items))
 WantSerials(stream, ps, devs) ==       \* ps = parse results of the stream's messages
   LET d == ReaderRunP(ReaderInit, ps, devs).delivered IN [i \in 1..Len(d) |-> SerialOf(stream[d[i]])]
 CompatChecks(r) ==
-  LET ps    == [i \in 1..Len(r.stream) |-> ParseMsg(r.stream[i])]
+  LET ps    == [i \in 1..Len(r.stream) |-> ParseC(r.stream[i])]
       p     == ps[r.odd]
       want0 == WantSerials(r.stream, ps, {})
   IN
